@@ -4,6 +4,9 @@ CONSTANTS
   Stable = FALSE
   KeySet = {1, 2, 3}
   ValSet = {1, 2}
+  HashVals = {}
+  IntKeys = {}
+  NegKeys = {}
   ShardCounts = {1, 2, 3}
 INVARIANTS TypeOK RouterInRange Equiv
 VIEW View
